@@ -128,23 +128,26 @@ CLAIMS = {
  },
  'C05': {
   'category': 'proof',
-  'technique': 'Lean 4 proof that every scanner-returned offset names its token text in chars (all states, all inputs) + typed walk of every accepted tree against a lexeme constraint table',
+  'technique': 'Lean 4 proof that every scanner-returned offset names its token text in chars (all states, all inputs), and whole-parser invariant that positions and leaves are created from such tokens only + typed walk of every accepted tree against a lexeme constraint table',
   'text': 'nextToken_at_pos / scanToken_text: for every scanner state and input, each (offset, token) pair the scanner returns has the token text at that char offset in the source (or is the automatic semicolon sitting at the end of the line\'s last token), only white space is skipped before it and the scanner ends right after it - so byte/char confusion or a wrong advance cannot occur in the scanner. '
+          'Whole parser (Hoare logic over the parser monad, induction on fuel): the current token is only ever a token the scanner produced from the source (invariant `cur`, through every goback and caught error), hence the offset expect(k) returns - the source of the keyword, operator and bracket positions stored in the tree - is the offset of a source token of kind k whose text stands there (expect_spec, RealPos.text_at), and every Ident / BasicLit node is created with its text verbatim at its char offset (RealIdent.verbatim, RealLit.verbatim). '
           'That the parser stores the right offsets in the right fields is decided by execution on every accepted input (generated programs in random layouts with multi-byte characters, tabs, CR LF, multi-line raw strings and comments before the checked tokens; corpus; mutants; soup; 19 exhaustive context streams; the same files read from disk with CR LF and BOM): the implementation tree is walked BY TYPE (schema extracted from ast.rs each run) and every position field must name the lexeme of the constraint table, bracket pairs ordered and strictly containing their contents, siblings in source order. Partial proof.',
   'note': 'Unconstrained by the property and not judged: LabeledStmt.pos, FuncType.pos of interface method elements (0), ChannelType.pos.1 without arrow, File.line_info.',
  },
  'C06': {
   'category': 'proof',
-  'technique': 'Lean 4 lemmas on the token-consuming primitives (expect, identifier) + accounting oracle on every accepted file among valid programs, 1-3 token mutants, soup and exhaustive context streams',
+  'technique': 'Lean 4 lemmas on the token-consuming primitives (expect, identifier) and whole-parser invariant that leaves are made from source tokens only + accounting oracle on every accepted file among valid programs, 1-3 token mutants, soup and exhaustive context streams',
   'text': 'Proved for every parser state: expect(k) succeeds only on a current token of kind k and returns its offset, fails on any other token or at end of input; the identifier leaf parser builds its leaf from the current token only. '
+          'Whole parser (Hoare logic, induction on fuel): every Ident, BasicLit and string-literal node is created from a token that the scanner produces from the source at that offset with that text - no leaf is invented (identifier_spec, literal_spec, stringLiteral_spec); carried to the returned tree for the package name (parseFile_pkg_real). '
           'The whole-file statement is decided by execution: whenever the implementation accepts a file (generated valid programs, single- and multi-token deletions / insertions / duplications / swaps of them and of the corpus, token soup, all short token sequences in the file-level syntactic contexts), '
           'the identifier and literal leaves of its tree must equal the identifier and literal tokens of the crate\'s own scanner on that source (text, offset, each once), brackets must be balanced and the package clause / imports must come first. One violation found this way (`switch a b {}` dropped `a`) was repaired; the earlier `import "a" 42` defect is a fixed entry. Partial proof.',
-  'note': 'Balanced consumption as a Hoare-style invariant over all productions is not proved yet.',
+  'note': 'That every token ends up as exactly one leaf (none dropped, brackets balanced, end of input reached) is not a theorem: it needs a recursive predicate over the 60 mutually recursive AST types in all 47 postconditions; the leaves oracle decides it.',
  },
  'C11': {
   'category': 'proof',
-  'technique': 'Lean 4 whole-parser invariant (Hoare logic, induction on fuel): the comment list of an accepted file is strictly increasing in position (each comment at most once, in source order); lemmas on the three writers of the list + comment-injection differential with the layout engine\'s own comment list as oracle',
+  'technique': 'Lean 4 whole-parser invariant (Hoare logic, induction on fuel): the comment list of an accepted file is strictly increasing in position (each comment at most once, in source order) and each entry is a comment token of the source, verbatim at its offset; lemmas on the three writers of the list + comment-injection differential with the layout engine\'s own comment list as oracle',
   'text': 'parseFile_comments_sorted (Props/HoareMain.lean): for every text, profile and fuel, if parse_file accepts then the offsets of File.comments are strictly increasing: the invariant (list sorted, all before the scanner position) is carried through every production, every goback, line_end_comment and every caught error. '
+          'parseFile_comments_real / RealComment.verbatim: each entry is a comment token that the scanner produces from the source at exactly the entry\'s offset, and its non-empty text stands there verbatim - nothing in the list is invented, moved or altered. '
           'Proved for every parser state: goback keeps exactly the comments that start before the restored position (goback_comments), the comment loop of next() only appends (commentLoop_appends), a raw scanner step does not touch the list, and a comment token\'s text is the source text at its offset. '
           'The end-to-end statement File.comments = comments of the source is decided by execution: generated programs and the token lists of all corpus programs are rendered with line and general comments at random gaps up to every gap (including inside re-read type-parameter lists, array lengths with struct literals, interface and struct bodies, after struct fields on the same line), and the returned list must equal the (offset, text) list the layout engine wrote, in order. Partial proof.',
   'note': 'That no comment is missing (the list is the complete list of comment tokens) is not a theorem; it is decided by the layout oracle.',
